@@ -203,6 +203,18 @@ def apply_op(st: State | None, op):
             return None, viols, True
         st = State(recv_kind, obj, exp)
         check_state(st, viols, "new", args)
+        # the new object owns its child list: changing a list / TagList it was built from afterwards
+        # must not reach it
+        for a in args:
+            if isinstance(a, (list, TagList)) and not isinstance(a, tuple):
+                try:
+                    a.append("__probe__")
+                except Exception:
+                    continue
+        if not same_list(list(st.children()), exp):
+            V("op=new:aliases-argument", "the constructed object shares its child list with a list it was built from",
+              observed=describe(st.children()))
+            return None, viols, True
         return st, viols, bool(exp)
 
     before_real = list(st.children())
